@@ -218,6 +218,17 @@ func (e *atomEnv) eval(x ast.Expr, val map[string]bool, depth int) (bool, bool) 
 			}
 			return false, false
 		}
+		// equality of two boolean values: `present == wantPresent`
+		if v.Op == token.EQL || v.Op == token.NEQ {
+			if t := info.TypeOf(v.X); t != nil && types.Identical(t.Underlying(), types.Typ[types.Bool]) {
+				a, ok1 := e.eval(v.X, val, depth)
+				b, ok2 := e.eval(v.Y, val, depth)
+				if ok1 && ok2 {
+					return (a == b) == (v.Op == token.EQL), true
+				}
+				return false, false
+			}
+		}
 	case *ast.Ident:
 		if depth < 4 {
 			if o := info.Uses[v]; o != nil {
